@@ -223,27 +223,43 @@ def run(ctx, rep):
         rets = [o for o in recs if "ret" in o]
         for code, kind, what in (("E100", "UnexpectedEof", "a payload cut short is reported (E100) and the RDH is still returned"),
                                  ("E101", "InvalidInput", "a skip past the end (InvalidInput) is reported (E101) and processing continues; other errors are returned")):
-            cr = [o for o in recs if o.get("code") == code]
-            ok = len(cr) == 1 and kinds(cr[0]["guard"])[0] == {kind}
-            det = "code sites %d" % len(cr)
+            # the report that runs exactly under `kind == K` (identified by its guard, not by the text of its code)
+            cr = [o for o in recs if "call" in o and kinds(o["guard"])[0] == {kind}]
+            codes_here = [o["code"] for o in recs if "code" in o and kinds(o["guard"])[0] == {kind}]
+            ok = len(cr) == 1 and (not codes_here or codes_here == [code])
+            det = "reports under kind == %s: %d, code literals there: %s" % (kind, len(cr), codes_here)
             if ok:
                 g0 = set(canon_guard(x) for x in cr[0]["guard"])
                 # no return under the reporting condition
                 early = [o for o in rets if g0 <= set(canon_guard(x) for x in o["guard"])]
                 # the other kinds are returned
                 other = [o for o in rets if kind in kinds(o["guard"])[1] or (o["ret"].startswith("Result::Err(") and any("isErr(" in x for x in o["guard"]) and kind not in kinds(o["guard"])[0] and len(o["guard"]) >= len(cr[0]["guard"]) - 0)]
-                rep_calls = [o for o in recs if "call" in o and set(canon_guard(x) for x in o["guard"]) == g0]
-                ok = not early and bool(other) and len(rep_calls) == 1
-                det = "returns under the reporting condition: %d, returns for other kinds: %d, report calls: %d" % (len(early), len(other), len(rep_calls))
+                ok = not early and bool(other)
+                det = "returns under the reporting condition: %d, returns for other kinds: %d" % (len(early), len(other))
             key = "R18.2|load_cdp|payload_eof" if code == "E100" else "R18.2|load_cdp|seek_eof"
             rep.check(ok, "R18.2", key, what, lc, "%s handling in load_cdp: %s" % (code, det))
     else:
         rep.missing("R18.2", lc)
     # ---------- R18.4 the truncation messages keep the canonical shape (the statistics thread parses `^0x[0-9A-F]+`)
     from . import c07
-    bad = c07.message_shape_violations(ctx, "dev", only_codes=("[E100]", "[E101]"))
+    # every Error message built by the input layer (the scanner crate) — the truncation messages, whether the code is
+    # written in the template or passed to a shared helper/constructor
+    n_msgs = []
+    bad = c07.message_shape_violations(ctx, "dev", within_prefix="alice_protocol_reader::", counter=n_msgs)
+    rep.floor("R18.4", len(n_msgs), 1, "Error messages built by the input layer")
     rep.check(not bad, "R18.4", "R18.4|truncation_message_shape", "[E100]/[E101] start with an upper-hex offset like every other error (sortable by the statistics thread)", "input_scanner.rs",
               "truncation message(s) %s do not start with `{pos:#X}: `: ErrorStats::sort_error_msgs_by_mem_pos panics on them and the findings for the intact prefix are lost" % bad)
+    # ---------- R18.5 an input that merely ends is never Fatal
+    # Controller::update answers a Fatal by raising the stop flag and dropping every later Error message, so a Fatal
+    # from the input layer erases the findings of the intact prefix.  The only condition the input layer may report
+    # that way is the invalid RDH offset (InvalidData) in sanity_check_offset_next; end-of-input conditions are Errors.
+    from .. import emit as _emit
+    fatals = sorted({s_["fn"] for s_ in _emit.error_sites(f, cg, reach) if s_["variant"] == "Fatal" and "InputStatType" in (s_.get("adt") or "") and s_["fn"].replace("<", "").startswith(AP)})
+    allowed = {p_ for p_ in f.fns if p_.startswith(AP) and p_.split("::")[-1] == "sanity_check_offset_next"}
+    rep.check(bool(fatals) and set(fatals) <= allowed, "R18.5", "R18.5|input_layer_fatal_sites", "the input layer reports Fatal only for an invalid RDH offset (%s)" % [x.split("::")[-1] for x in fatals],
+              "alice_protocol_reader/src/input_scanner.rs",
+              "InputStatType::Fatal is constructed in %s: after a Fatal the controller discards every later error message, so the findings of the packets "
+              "before an end-of-input condition are lost" % [x for x in fatals if x not in allowed])
     # analysis: every received batch is processed (recv loop) — shared with C17 R17.2
 
 
